@@ -59,6 +59,18 @@ int main(int argc, char** argv) {
                 ContactTracker::SphereSphere tr; CollisionDetectionAlgorithm::SphereSphere alg;
                 js << ",\"tracked\":" << tracked(tr, X1, s1, X2, s2) << ",\"trackedMoved\":" << tracked(tr, X1m, s1, X2m, s2) << ",\"trackedSwapped\":" << tracked(tr, X2, s2, X1, s1)
                    << ",\"detected\":" << detected(alg, s1, X1, s2, X2) << ",\"detectedMoved\":" << detected(alg, s1, X1m, s2, X2m) << ",\"detectedSwapped\":" << detected(alg, s2, X2, s1, X1);
+            } else if (c["kind"].str() == "hb") {
+                ContactGeometry::HalfSpace h; ContactGeometry::Brick b(Vec3(c["h"][0].dbl(), c["h"][1].dbl(), c["h"][2].dbl()));
+                ContactTracker::HalfSpaceBrick tr;
+                auto one = [&](const Transform& XH, const Transform& XB) {
+                    UntrackedContact prior(ContactSurfaceIndex(0), ContactSurfaceIndex(1)); Contact cur; std::ostringstream o;
+                    const bool ok = tr.trackContact(prior, XH, h, XB, b, 0, cur);
+                    o << "{\"ok\":" << (ok ? 1 : 0);
+                    if (ok && !cur.isEmpty() && BrickHalfSpaceContact::isInstance(cur)) { const BrickHalfSpaceContact& bc = BrickHalfSpaceContact::getAs(cur);
+                        o << ",\"contact\":1,\"depth\":" << num(bc.getDepth()) << ",\"vertex\":" << bc.getLowestVertex() << ",\"pHB\":" << jv(bc.getTransform().p()); }
+                    else o << ",\"contact\":0";
+                    o << "}"; return o.str(); };
+                js << ",\"tracked\":" << one(X1, X2) << ",\"trackedMoved\":" << one(X1m, X2m);
             } else {
                 ContactGeometry::HalfSpace h; ContactGeometry::Sphere s2(c["r2"].dbl());
                 ContactTracker::HalfSpaceSphere tr; CollisionDetectionAlgorithm::HalfSpaceSphere alg;
